@@ -315,6 +315,16 @@ def run_validate(trace_path, props, workdir, module='OVMTrace.tla', timeout=3600
         elif line.startswith('<<"VXDONE"'):
             m = re.match(r'<<"VXDONE", (\d+), (\d+), (\d+), (\d+)>>', line)
             done = dict(lines=int(m.group(1)), checked=int(m.group(2)), bad=int(m.group(3)), drift=int(m.group(4)))
+    if (r.returncode != 0 or done is None) and 'The error occurred when TLC was evaluating' in r.stdout:
+        # TLC could not interpret a recorded line as a state/step of the specification (e.g. a stored
+        # handle far out of range).  The spec and the executor are unchanged, so the data is what is
+        # wrong: report the line (the orchestrator reproduces it before calling it a violation).
+        ls = re.findall(r'/\\ l = (\d+)', r.stdout)
+        ln = int(ls[-1]) if ls else 1
+        nchk = re.findall(r'/\\ nchk = (\d+)', r.stdout)
+        bads.append(dict(line=ln, x=-1, msg='EVAL:recorded line cannot be interpreted by the specification'))
+        done = dict(lines=ln, checked=int(nchk[-1]) if nchk else 0, bad=len(bads), drift=len(drifts))
+        return dict(bads=bads, drifts=drifts, done=done, wall=time.time() - t0, truncated=True)
     if r.returncode != 0 or done is None:
         raise MachineryError('validator failed (exit %d) on %s:\n%s' % (r.returncode, trace_path, r.stdout[-3000:]))
     return dict(bads=bads, drifts=drifts, done=done, wall=time.time() - t0)
@@ -349,7 +359,10 @@ def exec_and_validate(variant, scripts, props, workdir, tag, exe_name='ovm_exec'
         for b in r['val']['bads']:
             if lines is None:
                 lines = open(r['trace']).read().splitlines()
-            path, root = path_of_line(lines, b['line'])
+            try:
+                path, root = path_of_line(lines, b['line'])
+            except Exception:
+                path = []
             agg['failures'].append(dict(msg=b['msg'], path=path, script=r['script'], x=b['x'], line=b['line'], trace=r['trace']))
         for dft in r['val']['drifts']:
             agg['drifts'].append(dict(op=dft['op'], trace=r['trace'], line=dft['line']))
